@@ -1,4 +1,5 @@
 import Csproto.Bridge.EncoderFuncs
+import Csproto.Proofs.Wire
 /-
   Bridge for a TRANSLATED packed writer: `(*Encoder).EncodePackedUInt64` of `/repo`'s current encoder.go — two `range` loops
   (one that sums `SizeOfVarint` of the elements for the length prefix, one that writes the elements through
@@ -725,6 +726,368 @@ theorem EncodePackedUInt32_refines (fuel : Nat) (hf : 10 ≤ fuel) (p : Bytes) (
         simp only [hst, EncOut.ofRes]
         rw [s4bad (by rw [e3p, e3o, hlen1, ha1]; exact h2)]
     · have hst : ({ buf := p, off := off.toNat } : Enc).store (T ++ encVarint S ++ flatU32 vs) = .panic :=
+        store_panic p _ _ (by simp only [List.length_append]; omega)
+      simp only [hst, EncOut.ofRes, s1bad h1]
+
+/-! ## `EncodePackedSInt64` (sizes by `SizeOfZigZag`, elements by the translated `EncodeZigZag64`) -/
+
+abbrev ESS64 := Encoder_EncodePackedSInt64.St
+
+def sizesBodyS64 : ESS64 → Go.Out ESS64 Unit := (fun s => .next { s with sz := (s.sz + (SizeOfZigZag s.v)) })
+def bindVS64 : ESS64 → BitVec 64 → ESS64 := (fun s x => { s with v := x })
+
+theorem sizeOfVarint_le10S64 (x : BitVec 64) : (SizeOfZigZag x).toNat = sizeOfZigZag x.toInt ∧ sizeOfZigZag x.toInt ≤ 10 := by
+  refine ⟨sizeOfZigZag_src x, ?_⟩
+  unfold sizeOfZigZag
+  rw [sizeOfVarint_eq_length]
+  exact encVarint_length_le_10 (zigzag_lt_two64 (inI64_toInt x))
+
+/-- the first loop: `sz` ends up as the sum of the elements' varint sizes -/
+theorem sizes_loopS64 : ∀ (vs : List (BitVec 64)) (s : ESS64), s.sz.toNat + 10 * vs.length < 2 ^ 63 →
+    ∃ s', Go.forEachGo bindVS64 sizesBodyS64 vs s = .next s' ∧ s'.e_p = s.e_p ∧ s'.e_offset = s.e_offset ∧ s'.vs = s.vs ∧ s'.tag = s.tag ∧
+      s'.sz.toNat = s.sz.toNat + sumSizes sizeOfZigZag (vs.map (·.toInt)) := by
+  intro vs
+  induction vs with
+  | nil => intro s _; exact ⟨s, rfl, rfl, rfl, rfl, rfl, by simp [sumSizes]⟩
+  | cons x r ih =>
+    intro s hb
+    obtain ⟨hx, hx10⟩ := sizeOfVarint_le10S64 x
+    simp only [List.length_cons] at hb
+    have hadd : (s.sz + SizeOfZigZag x).toNat = s.sz.toNat + sizeOfZigZag x.toInt := by
+      rw [BitVec.toNat_add, hx, Nat.mod_eq_of_lt (by omega)]
+    obtain ⟨s', h1, h2, h3, h4, h5, h6⟩ := ih { s with v := x, sz := s.sz + SizeOfZigZag x } (by simp only; rw [hadd]; omega)
+    refine ⟨s', ?_, h2, h3, h4, h5, ?_⟩
+    · simp only [Go.forEachGo, bindVS64, sizesBodyS64]; exact h1
+    · rw [h6]; simp only [hadd, List.map_cons, sumSizes, List.sum_cons]; omega
+
+def writeBodyS64 (fuel : Nat) : ESS64 → Go.Out ESS64 Unit :=
+  (fun s => if ((s.e_offset).toNat ≤ s.e_p.length) then match (EncodeZigZag64 fuel (s.e_p.drop (s.e_offset).toNat) s.v) with | .ret r c => .next { s with e_p := s.e_p.take (s.e_offset).toNat ++ c.dest, e_offset := (s.e_offset + r) } | .next _ => .panic | .panic => .panic | .diverge => .diverge else .panic)
+
+def flatS64 (vs : List (BitVec 64)) : Bytes := ((vs.map (·.toInt)).map encZigZag64).flatten
+
+/-- the second loop: the elements' varints one after the other at the cursor, or a panic when they do not all fit -/
+theorem write_loopS64 (fuel : Nat) (hf : 10 ≤ fuel) : ∀ (vs : List (BitVec 64)) (s : ESS64), s.e_p.length < 2 ^ 62 → s.e_offset.toNat ≤ s.e_p.length →
+    (s.e_offset.toNat + (flatS64 vs).length ≤ s.e_p.length →
+      ∃ s', Go.forEachGo bindVS64 (writeBodyS64 fuel) vs s = .next s' ∧ s'.e_p = writeAt s.e_p s.e_offset.toNat (flatS64 vs) ∧
+        s'.e_offset.toNat = s.e_offset.toNat + (flatS64 vs).length) ∧
+    (¬ s.e_offset.toNat + (flatS64 vs).length ≤ s.e_p.length → Go.forEachGo bindVS64 (writeBodyS64 fuel) vs s = .panic) := by
+  intro vs
+  induction vs with
+  | nil =>
+    intro s hp ho
+    refine ⟨fun _ => ⟨s, rfl, by simp [flatS64, writeAt], by simp [flatS64]⟩, fun h => by simp [flatS64] at h; omega⟩
+  | cons x r ih =>
+    intro s hp ho
+    have hflat : flatS64 (x :: r) = encZigZag64 x.toInt ++ flatS64 r := by simp [flatS64]
+    obtain ⟨sok, sbad⟩ := stage (EncodeZigZag64 fuel (s.e_p.drop s.e_offset.toNat) x) (·.dest) s.e_p s.e_offset (encZigZag64 x.toInt) (by omega) ho
+      (fun h => EncodeZigZag64_ok fuel _ x hf h) (fun h => EncodeZigZag64_short fuel _ x hf h)
+    by_cases h1 : s.e_offset.toNat + (encZigZag64 x.toInt).length ≤ s.e_p.length
+    · obtain ⟨c, hc, hw, ha⟩ := sok h1
+      have hstep : writeBodyS64 fuel (bindVS64 s x) = .next { (bindVS64 s x) with e_p := writeAt s.e_p s.e_offset.toNat (encZigZag64 x.toInt), e_offset := s.e_offset + BitVec.ofNat 64 (encZigZag64 x.toInt).length } := by
+        simp only [writeBodyS64, bindVS64, ho, if_true, hc, hw]
+      have hlen1 : (writeAt s.e_p s.e_offset.toNat (encZigZag64 x.toInt)).length = s.e_p.length := writeAt_length h1
+      obtain ⟨iok, ibad⟩ := ih { (bindVS64 s x) with e_p := writeAt s.e_p s.e_offset.toNat (encZigZag64 x.toInt), e_offset := s.e_offset + BitVec.ofNat 64 (encZigZag64 x.toInt).length }
+        (by simp only; rw [hlen1]; exact hp) (by simp only; rw [hlen1, ha]; exact h1)
+      simp only [hlen1, ha] at iok ibad
+      constructor
+      · intro hfit
+        rw [hflat, List.length_append] at hfit
+        obtain ⟨s', e1, e2, e3⟩ := iok (by omega)
+        refine ⟨s', ?_, ?_, ?_⟩
+        · simp only [Go.forEachGo, hstep]; exact e1
+        · rw [e2, hflat, writeAt_writeAt _ _ _ _ (by omega)]
+        · rw [e3, hflat, List.length_append]; omega
+      · intro hno
+        rw [hflat, List.length_append] at hno
+        simp only [Go.forEachGo, hstep]
+        exact ibad (by omega)
+    · constructor
+      · intro hfit; rw [hflat, List.length_append] at hfit; omega
+      · intro _
+        have hp' := sbad h1
+        simp only [Go.forEachGo, writeBodyS64, bindVS64, ho, if_true, hp']
+
+theorem seq_nextS64 {σ ρ : Type} (a b : σ → Go.Out σ ρ) (s s' : σ) (h : a s = .next s') : Go.seq a b s = b s' := by
+  simp [Go.seq, h]
+theorem seq_panicS64 {σ ρ : Type} (a b : σ → Go.Out σ ρ) (s : σ) (h : a s = .panic) : Go.seq a b s = .panic := by
+  simp [Go.seq, h]
+
+/-- **`(*Encoder).EncodePackedUInt64` of the source refines `Enc.step (.packedVarint tag vs)`** -/
+theorem EncodePackedSInt64_refines (fuel : Nat) (hf : 10 ≤ fuel) (p : Bytes) (off tag : BitVec 64) (vs : List (BitVec 64))
+    (hp : p.length < 2 ^ 62) (hoff : off.toNat ≤ p.length) (hvs : vs.length < 2 ^ 59) :
+    match ({ buf := p, off := off.toNat } : Enc).step (.packedZigzag64 tag.toNat (vs.map (·.toInt))) with
+    | .ok e' => ∃ s, Encoder_EncodePackedSInt64 fuel p off tag vs = .ret () s ∧ s.e_p = e'.buf ∧ s.e_offset.toNat = e'.off
+    | .panic => Encoder_EncodePackedSInt64 fuel p off tag vs = .panic
+    | .err _ => False := by
+  have hp63 : p.length < 2 ^ 63 := by omega
+  unfold Encoder_EncodePackedSInt64 Encoder_EncodePackedSInt64.body
+  cases hvs0 : vs with
+  | nil => simp [Go.seq, Enc.step]
+  | cons x0 r0 =>
+    rw [← hvs0]
+    have hne : (vs.map (·.toInt)).isEmpty = false := by rw [hvs0]; rfl
+    have hlen0 : ((BitVec.ofNat 64 vs.length) == 0#64) = false := by
+      have : 0 < vs.length := by rw [hvs0]; simp
+      have h2 : (BitVec.ofNat 64 vs.length).toNat = vs.length := by simp; omega
+      have : BitVec.ofNat 64 vs.length ≠ 0#64 := fun h => by rw [h] at h2; simp at h2; omega
+      simp [this]
+    simp only [Enc.step, hne, Bool.false_eq_true, if_false, EncOp.wire]
+    -- abbreviations
+    generalize hT : encTag tag.toNat wtLen = T
+    generalize hS : sumSizes sizeOfZigZag (vs.map (·.toInt)) = S
+    have hW : ((vs.map (·.toInt)).map encZigZag64).flatten = flatS64 vs := rfl
+    rw [hW]
+    have hwt : wtLen = (2#64).toNat := rfl
+    -- first statement (empty test) and the key
+    obtain ⟨s1ok, s1bad⟩ := stage (EncodeTag fuel (p.drop off.toNat) tag 2#64) (·.dest) p off T hp63 hoff
+      (fun h => by rw [← hT, hwt] at h ⊢; exact EncodeTag_ok fuel _ tag 2#64 hf h)
+      (fun h => by rw [← hT, hwt] at h; exact EncodeTag_short fuel _ tag 2#64 hf h)
+    simp only [Go.seq, Go.skip, hlen0, Bool.false_eq_true, if_false, hoff, if_true]
+    by_cases h1 : off.toNat + T.length ≤ p.length
+    · obtain ⟨c1, hc1, hw1, ha1⟩ := s1ok h1
+      have hlen1 : (writeAt p off.toNat T).length = p.length := writeAt_length h1
+      simp only [hc1, hw1]
+      -- the sizes loop
+      obtain ⟨s3, hl3, e3p, e3o, e3v, e3t, e3s⟩ := sizes_loopS64 vs
+        { e_p := writeAt p off.toNat T, e_offset := off + BitVec.ofNat 64 T.length, tag := tag, vs := vs, sz := 0#64 } (by simp; omega)
+      have hf3 : Go.forEach (fun s : ESS64 => s.vs) (fun s x => { s with v := x }) (fun s => Go.Out.next { s with sz := (s.sz + (SizeOfZigZag s.v)) })
+          { e_p := writeAt p off.toNat T, e_offset := off + BitVec.ofNat 64 T.length, tag := tag, vs := vs, sz := 0#64 } = .next s3 := hl3
+      simp only [hf3]
+      simp only at e3p e3o e3v e3t e3s
+      have hsz : s3.sz.toNat = S := by rw [e3s, hS]; simp
+      -- the length prefix
+      obtain ⟨s4ok, s4bad⟩ := stage (EncodeVarint fuel (s3.e_p.drop s3.e_offset.toNat) s3.sz) (·.dest) s3.e_p s3.e_offset (encVarint S)
+        (by rw [e3p, hlen1]; exact hp63) (by rw [e3p, e3o, hlen1, ha1]; exact h1)
+        (fun h => by rw [← hsz] at h ⊢; exact EncodeVarint_ok fuel _ s3.sz hf h) (fun h => by rw [← hsz] at h; exact EncodeVarint_short fuel _ s3.sz hf h)
+      have hle3 : s3.e_offset.toNat ≤ s3.e_p.length := by rw [e3p, e3o, hlen1, ha1]; exact h1
+      simp only [hle3, if_true]
+      by_cases h2 : off.toNat + T.length + (encVarint S).length ≤ p.length
+      · obtain ⟨c2, hc2, hw2, ha2⟩ := s4ok (by rw [e3p, e3o, hlen1, ha1]; exact h2)
+        simp only [hc2, hw2]
+        simp only [e3p, e3o, ha1] at hw2 ha2
+        have hq2 : writeAt (writeAt p off.toNat T) (off.toNat + T.length) (encVarint S) = writeAt p off.toNat (T ++ encVarint S) :=
+          writeAt_writeAt p off.toNat _ _ h2
+        have hlen2 : (writeAt p off.toNat (T ++ encVarint S)).length = p.length := writeAt_length (by simp only [List.length_append]; omega)
+        -- the elements
+        have e5p : ({ s3 with e_p := writeAt s3.e_p s3.e_offset.toNat (encVarint S), e_offset := s3.e_offset + BitVec.ofNat 64 (encVarint S).length } : ESS64).e_p = writeAt p off.toNat (T ++ encVarint S) := by
+          show writeAt s3.e_p s3.e_offset.toNat (encVarint S) = _
+          rw [e3p, e3o, ha1, hq2]
+        have e5o : ({ s3 with e_p := writeAt s3.e_p s3.e_offset.toNat (encVarint S), e_offset := s3.e_offset + BitVec.ofNat 64 (encVarint S).length } : ESS64).e_offset.toNat = off.toNat + T.length + (encVarint S).length := by
+          show (s3.e_offset + BitVec.ofNat 64 (encVarint S).length).toNat = _
+          rw [e3o, ha2]
+        obtain ⟨wok, wbad⟩ := write_loopS64 fuel hf vs ({ s3 with e_p := writeAt s3.e_p s3.e_offset.toNat (encVarint S), e_offset := s3.e_offset + BitVec.ofNat 64 (encVarint S).length } : ESS64) (by rw [e5p, hlen2]; exact hp) (by rw [e5p, e5o, hlen2]; exact h2)
+        rw [e5p, e5o, hlen2] at wok wbad
+        have hoffl : off.toNat + T.length + (encVarint S).length = off.toNat + (T ++ encVarint S).length := by
+          simp only [List.length_append]; omega
+        have hfe : ∀ st : ESS64, Go.forEach (fun s : ESS64 => s.vs) (fun s x => { s with v := x }) (writeBodyS64 fuel) st = Go.forEachGo bindVS64 (writeBodyS64 fuel) st.vs st := fun _ => rfl
+        by_cases h3 : off.toNat + T.length + (encVarint S).length + (flatS64 vs).length ≤ p.length
+        · obtain ⟨s6, hl6, e6p, e6o⟩ := wok h3
+          have hst : ({ buf := p, off := off.toNat } : Enc).store (T ++ encVarint S ++ flatS64 vs) =
+              .ok { buf := writeAt p off.toNat (T ++ encVarint S ++ flatS64 vs), off := off.toNat + (T ++ encVarint S ++ flatS64 vs).length } :=
+            store_ok p _ _ (by simp only [List.length_append]; omega)
+          simp only [hst, EncOut.ofRes]
+          unfold bindVS64 writeBodyS64 at hl6
+          rw [e3v] at hl6
+          simp only [Go.forEach, e3v]
+          refine ⟨s6, ?_, ?_, ?_⟩
+          · first | erw [hl6] | simp only [hl6] | (rw [show _ = _ from hl6])
+          · rw [e6p, hoffl, writeAt_writeAt p off.toNat _ _ (by simp only [List.length_append]; omega)]
+          · rw [e6o]; simp only [List.length_append]; omega
+        · have hst : ({ buf := p, off := off.toNat } : Enc).store (T ++ encVarint S ++ flatS64 vs) = .panic :=
+            store_panic p _ _ (by simp only [List.length_append]; omega)
+          simp only [hst, EncOut.ofRes]
+          have hb := wbad h3
+          unfold bindVS64 writeBodyS64 at hb
+          rw [e3v] at hb
+          simp only [Go.forEach, e3v]
+          first | erw [hb] | simp only [hb]
+      · have hst : ({ buf := p, off := off.toNat } : Enc).store (T ++ encVarint S ++ flatS64 vs) = .panic :=
+          store_panic p _ _ (by simp only [List.length_append]; omega)
+        simp only [hst, EncOut.ofRes]
+        rw [s4bad (by rw [e3p, e3o, hlen1, ha1]; exact h2)]
+    · have hst : ({ buf := p, off := off.toNat } : Enc).store (T ++ encVarint S ++ flatS64 vs) = .panic :=
+        store_panic p _ _ (by simp only [List.length_append]; omega)
+      simp only [hst, EncOut.ofRes, s1bad h1]
+
+/-! ## `EncodePackedSInt32` (sizes by `SizeOfZigZag(uint64(v))` of the sign-extended element, elements by `EncodeZigZag32`) -/
+
+abbrev ESS32 := Encoder_EncodePackedSInt32.St
+
+def sizesBodyS32 : ESS32 → Go.Out ESS32 Unit := (fun s => .next { s with sz := (s.sz + (SizeOfZigZag (BitVec.signExtend 64 s.v))) })
+def bindVS32 : ESS32 → BitVec 32 → ESS32 := (fun s x => { s with v := x })
+
+theorem sizeOfVarint_le10S32 (x : BitVec 32) : (SizeOfZigZag (BitVec.signExtend 64 x)).toNat = sizeOfZigZag x.toInt ∧ sizeOfZigZag x.toInt ≤ 10 := by
+  have hx : (BitVec.signExtend 64 x).toInt = x.toInt := BitVec.toInt_signExtend_of_le (by omega)
+  refine ⟨by rw [sizeOfZigZag_src, hx], ?_⟩
+  unfold sizeOfZigZag
+  rw [sizeOfVarint_eq_length]
+  have h32 := zigzag_lt_two32 (inI32_toInt x)
+  exact encVarint_length_le_10 (by unfold two32 at h32; unfold two64; omega)
+
+/-- the first loop: `sz` ends up as the sum of the elements' varint sizes -/
+theorem sizes_loopS32 : ∀ (vs : List (BitVec 32)) (s : ESS32), s.sz.toNat + 10 * vs.length < 2 ^ 63 →
+    ∃ s', Go.forEachGo bindVS32 sizesBodyS32 vs s = .next s' ∧ s'.e_p = s.e_p ∧ s'.e_offset = s.e_offset ∧ s'.vs = s.vs ∧ s'.tag = s.tag ∧
+      s'.sz.toNat = s.sz.toNat + sumSizes sizeOfZigZag (vs.map (·.toInt)) := by
+  intro vs
+  induction vs with
+  | nil => intro s _; exact ⟨s, rfl, rfl, rfl, rfl, rfl, by simp [sumSizes]⟩
+  | cons x r ih =>
+    intro s hb
+    obtain ⟨hx, hx10⟩ := sizeOfVarint_le10S32 x
+    simp only [List.length_cons] at hb
+    have hadd : (s.sz + SizeOfZigZag (BitVec.signExtend 64 x)).toNat = s.sz.toNat + sizeOfZigZag x.toInt := by
+      rw [BitVec.toNat_add, hx, Nat.mod_eq_of_lt (by omega)]
+    obtain ⟨s', h1, h2, h3, h4, h5, h6⟩ := ih { s with v := x, sz := s.sz + SizeOfZigZag (BitVec.signExtend 64 x) } (by simp only; rw [hadd]; omega)
+    refine ⟨s', ?_, h2, h3, h4, h5, ?_⟩
+    · simp only [Go.forEachGo, bindVS32, sizesBodyS32]; exact h1
+    · rw [h6]; simp only [hadd, List.map_cons, sumSizes, List.sum_cons]; omega
+
+def writeBodyS32 (fuel : Nat) : ESS32 → Go.Out ESS32 Unit :=
+  (fun s => if ((s.e_offset).toNat ≤ s.e_p.length) then match (EncodeZigZag32 fuel (s.e_p.drop (s.e_offset).toNat) s.v) with | .ret r c => .next { s with e_p := s.e_p.take (s.e_offset).toNat ++ c.dest, e_offset := (s.e_offset + r) } | .next _ => .panic | .panic => .panic | .diverge => .diverge else .panic)
+
+def flatS32 (vs : List (BitVec 32)) : Bytes := ((vs.map (·.toInt)).map encZigZag32).flatten
+
+/-- the second loop: the elements' varints one after the other at the cursor, or a panic when they do not all fit -/
+theorem write_loopS32 (fuel : Nat) (hf : 10 ≤ fuel) : ∀ (vs : List (BitVec 32)) (s : ESS32), s.e_p.length < 2 ^ 62 → s.e_offset.toNat ≤ s.e_p.length →
+    (s.e_offset.toNat + (flatS32 vs).length ≤ s.e_p.length →
+      ∃ s', Go.forEachGo bindVS32 (writeBodyS32 fuel) vs s = .next s' ∧ s'.e_p = writeAt s.e_p s.e_offset.toNat (flatS32 vs) ∧
+        s'.e_offset.toNat = s.e_offset.toNat + (flatS32 vs).length) ∧
+    (¬ s.e_offset.toNat + (flatS32 vs).length ≤ s.e_p.length → Go.forEachGo bindVS32 (writeBodyS32 fuel) vs s = .panic) := by
+  intro vs
+  induction vs with
+  | nil =>
+    intro s hp ho
+    refine ⟨fun _ => ⟨s, rfl, by simp [flatS32, writeAt], by simp [flatS32]⟩, fun h => by simp [flatS32] at h; omega⟩
+  | cons x r ih =>
+    intro s hp ho
+    have hflat : flatS32 (x :: r) = encZigZag32 x.toInt ++ flatS32 r := by simp [flatS32]
+    obtain ⟨sok, sbad⟩ := stage (EncodeZigZag32 fuel (s.e_p.drop s.e_offset.toNat) x) (·.dest) s.e_p s.e_offset (encZigZag32 x.toInt) (by omega) ho
+      (fun h => EncodeZigZag32_ok fuel _ x hf h) (fun h => EncodeZigZag32_short fuel _ x hf h)
+    by_cases h1 : s.e_offset.toNat + (encZigZag32 x.toInt).length ≤ s.e_p.length
+    · obtain ⟨c, hc, hw, ha⟩ := sok h1
+      have hstep : writeBodyS32 fuel (bindVS32 s x) = .next { (bindVS32 s x) with e_p := writeAt s.e_p s.e_offset.toNat (encZigZag32 x.toInt), e_offset := s.e_offset + BitVec.ofNat 64 (encZigZag32 x.toInt).length } := by
+        simp only [writeBodyS32, bindVS32, ho, if_true, hc, hw]
+      have hlen1 : (writeAt s.e_p s.e_offset.toNat (encZigZag32 x.toInt)).length = s.e_p.length := writeAt_length h1
+      obtain ⟨iok, ibad⟩ := ih { (bindVS32 s x) with e_p := writeAt s.e_p s.e_offset.toNat (encZigZag32 x.toInt), e_offset := s.e_offset + BitVec.ofNat 64 (encZigZag32 x.toInt).length }
+        (by simp only; rw [hlen1]; exact hp) (by simp only; rw [hlen1, ha]; exact h1)
+      simp only [hlen1, ha] at iok ibad
+      constructor
+      · intro hfit
+        rw [hflat, List.length_append] at hfit
+        obtain ⟨s', e1, e2, e3⟩ := iok (by omega)
+        refine ⟨s', ?_, ?_, ?_⟩
+        · simp only [Go.forEachGo, hstep]; exact e1
+        · rw [e2, hflat, writeAt_writeAt _ _ _ _ (by omega)]
+        · rw [e3, hflat, List.length_append]; omega
+      · intro hno
+        rw [hflat, List.length_append] at hno
+        simp only [Go.forEachGo, hstep]
+        exact ibad (by omega)
+    · constructor
+      · intro hfit; rw [hflat, List.length_append] at hfit; omega
+      · intro _
+        have hp' := sbad h1
+        simp only [Go.forEachGo, writeBodyS32, bindVS32, ho, if_true, hp']
+
+theorem seq_nextS32 {σ ρ : Type} (a b : σ → Go.Out σ ρ) (s s' : σ) (h : a s = .next s') : Go.seq a b s = b s' := by
+  simp [Go.seq, h]
+theorem seq_panicS32 {σ ρ : Type} (a b : σ → Go.Out σ ρ) (s : σ) (h : a s = .panic) : Go.seq a b s = .panic := by
+  simp [Go.seq, h]
+
+/-- **`(*Encoder).EncodePackedUInt64` of the source refines `Enc.step (.packedVarint tag vs)`** -/
+theorem EncodePackedSInt32_refines (fuel : Nat) (hf : 10 ≤ fuel) (p : Bytes) (off tag : BitVec 64) (vs : List (BitVec 32))
+    (hp : p.length < 2 ^ 62) (hoff : off.toNat ≤ p.length) (hvs : vs.length < 2 ^ 59) :
+    match ({ buf := p, off := off.toNat } : Enc).step (.packedZigzag32 tag.toNat (vs.map (·.toInt))) with
+    | .ok e' => ∃ s, Encoder_EncodePackedSInt32 fuel p off tag vs = .ret () s ∧ s.e_p = e'.buf ∧ s.e_offset.toNat = e'.off
+    | .panic => Encoder_EncodePackedSInt32 fuel p off tag vs = .panic
+    | .err _ => False := by
+  have hp63 : p.length < 2 ^ 63 := by omega
+  unfold Encoder_EncodePackedSInt32 Encoder_EncodePackedSInt32.body
+  cases hvs0 : vs with
+  | nil => simp [Go.seq, Enc.step]
+  | cons x0 r0 =>
+    rw [← hvs0]
+    have hne : (vs.map (·.toInt)).isEmpty = false := by rw [hvs0]; rfl
+    have hlen0 : ((BitVec.ofNat 64 vs.length) == 0#64) = false := by
+      have : 0 < vs.length := by rw [hvs0]; simp
+      have h2 : (BitVec.ofNat 64 vs.length).toNat = vs.length := by simp; omega
+      have : BitVec.ofNat 64 vs.length ≠ 0#64 := fun h => by rw [h] at h2; simp at h2; omega
+      simp [this]
+    simp only [Enc.step, hne, Bool.false_eq_true, if_false, EncOp.wire]
+    -- abbreviations
+    generalize hT : encTag tag.toNat wtLen = T
+    generalize hS : sumSizes sizeOfZigZag (vs.map (·.toInt)) = S
+    have hW : ((vs.map (·.toInt)).map encZigZag32).flatten = flatS32 vs := rfl
+    rw [hW]
+    have hwt : wtLen = (2#64).toNat := rfl
+    -- first statement (empty test) and the key
+    obtain ⟨s1ok, s1bad⟩ := stage (EncodeTag fuel (p.drop off.toNat) tag 2#64) (·.dest) p off T hp63 hoff
+      (fun h => by rw [← hT, hwt] at h ⊢; exact EncodeTag_ok fuel _ tag 2#64 hf h)
+      (fun h => by rw [← hT, hwt] at h; exact EncodeTag_short fuel _ tag 2#64 hf h)
+    simp only [Go.seq, Go.skip, hlen0, Bool.false_eq_true, if_false, hoff, if_true]
+    by_cases h1 : off.toNat + T.length ≤ p.length
+    · obtain ⟨c1, hc1, hw1, ha1⟩ := s1ok h1
+      have hlen1 : (writeAt p off.toNat T).length = p.length := writeAt_length h1
+      simp only [hc1, hw1]
+      -- the sizes loop
+      obtain ⟨s3, hl3, e3p, e3o, e3v, e3t, e3s⟩ := sizes_loopS32 vs
+        { e_p := writeAt p off.toNat T, e_offset := off + BitVec.ofNat 64 T.length, tag := tag, vs := vs, sz := 0#64 } (by simp; omega)
+      have hf3 : Go.forEach (fun s : ESS32 => s.vs) (fun s x => { s with v := x }) (fun s => Go.Out.next { s with sz := (s.sz + (SizeOfZigZag (BitVec.signExtend 64 s.v))) })
+          { e_p := writeAt p off.toNat T, e_offset := off + BitVec.ofNat 64 T.length, tag := tag, vs := vs, sz := 0#64 } = .next s3 := hl3
+      simp only [hf3]
+      simp only at e3p e3o e3v e3t e3s
+      have hsz : s3.sz.toNat = S := by rw [e3s, hS]; simp
+      -- the length prefix
+      obtain ⟨s4ok, s4bad⟩ := stage (EncodeVarint fuel (s3.e_p.drop s3.e_offset.toNat) s3.sz) (·.dest) s3.e_p s3.e_offset (encVarint S)
+        (by rw [e3p, hlen1]; exact hp63) (by rw [e3p, e3o, hlen1, ha1]; exact h1)
+        (fun h => by rw [← hsz] at h ⊢; exact EncodeVarint_ok fuel _ s3.sz hf h) (fun h => by rw [← hsz] at h; exact EncodeVarint_short fuel _ s3.sz hf h)
+      have hle3 : s3.e_offset.toNat ≤ s3.e_p.length := by rw [e3p, e3o, hlen1, ha1]; exact h1
+      simp only [hle3, if_true]
+      by_cases h2 : off.toNat + T.length + (encVarint S).length ≤ p.length
+      · obtain ⟨c2, hc2, hw2, ha2⟩ := s4ok (by rw [e3p, e3o, hlen1, ha1]; exact h2)
+        simp only [hc2, hw2]
+        simp only [e3p, e3o, ha1] at hw2 ha2
+        have hq2 : writeAt (writeAt p off.toNat T) (off.toNat + T.length) (encVarint S) = writeAt p off.toNat (T ++ encVarint S) :=
+          writeAt_writeAt p off.toNat _ _ h2
+        have hlen2 : (writeAt p off.toNat (T ++ encVarint S)).length = p.length := writeAt_length (by simp only [List.length_append]; omega)
+        -- the elements
+        have e5p : ({ s3 with e_p := writeAt s3.e_p s3.e_offset.toNat (encVarint S), e_offset := s3.e_offset + BitVec.ofNat 64 (encVarint S).length } : ESS32).e_p = writeAt p off.toNat (T ++ encVarint S) := by
+          show writeAt s3.e_p s3.e_offset.toNat (encVarint S) = _
+          rw [e3p, e3o, ha1, hq2]
+        have e5o : ({ s3 with e_p := writeAt s3.e_p s3.e_offset.toNat (encVarint S), e_offset := s3.e_offset + BitVec.ofNat 64 (encVarint S).length } : ESS32).e_offset.toNat = off.toNat + T.length + (encVarint S).length := by
+          show (s3.e_offset + BitVec.ofNat 64 (encVarint S).length).toNat = _
+          rw [e3o, ha2]
+        obtain ⟨wok, wbad⟩ := write_loopS32 fuel hf vs ({ s3 with e_p := writeAt s3.e_p s3.e_offset.toNat (encVarint S), e_offset := s3.e_offset + BitVec.ofNat 64 (encVarint S).length } : ESS32) (by rw [e5p, hlen2]; exact hp) (by rw [e5p, e5o, hlen2]; exact h2)
+        rw [e5p, e5o, hlen2] at wok wbad
+        have hoffl : off.toNat + T.length + (encVarint S).length = off.toNat + (T ++ encVarint S).length := by
+          simp only [List.length_append]; omega
+        have hfe : ∀ st : ESS32, Go.forEach (fun s : ESS32 => s.vs) (fun s x => { s with v := x }) (writeBodyS32 fuel) st = Go.forEachGo bindVS32 (writeBodyS32 fuel) st.vs st := fun _ => rfl
+        by_cases h3 : off.toNat + T.length + (encVarint S).length + (flatS32 vs).length ≤ p.length
+        · obtain ⟨s6, hl6, e6p, e6o⟩ := wok h3
+          have hst : ({ buf := p, off := off.toNat } : Enc).store (T ++ encVarint S ++ flatS32 vs) =
+              .ok { buf := writeAt p off.toNat (T ++ encVarint S ++ flatS32 vs), off := off.toNat + (T ++ encVarint S ++ flatS32 vs).length } :=
+            store_ok p _ _ (by simp only [List.length_append]; omega)
+          simp only [hst, EncOut.ofRes]
+          unfold bindVS32 writeBodyS32 at hl6
+          rw [e3v] at hl6
+          simp only [Go.forEach, e3v]
+          refine ⟨s6, ?_, ?_, ?_⟩
+          · first | erw [hl6] | simp only [hl6] | (rw [show _ = _ from hl6])
+          · rw [e6p, hoffl, writeAt_writeAt p off.toNat _ _ (by simp only [List.length_append]; omega)]
+          · rw [e6o]; simp only [List.length_append]; omega
+        · have hst : ({ buf := p, off := off.toNat } : Enc).store (T ++ encVarint S ++ flatS32 vs) = .panic :=
+            store_panic p _ _ (by simp only [List.length_append]; omega)
+          simp only [hst, EncOut.ofRes]
+          have hb := wbad h3
+          unfold bindVS32 writeBodyS32 at hb
+          rw [e3v] at hb
+          simp only [Go.forEach, e3v]
+          first | erw [hb] | simp only [hb]
+      · have hst : ({ buf := p, off := off.toNat } : Enc).store (T ++ encVarint S ++ flatS32 vs) = .panic :=
+          store_panic p _ _ (by simp only [List.length_append]; omega)
+        simp only [hst, EncOut.ofRes]
+        rw [s4bad (by rw [e3p, e3o, hlen1, ha1]; exact h2)]
+    · have hst : ({ buf := p, off := off.toNat } : Enc).store (T ++ encVarint S ++ flatS32 vs) = .panic :=
         store_panic p _ _ (by simp only [List.length_append]; omega)
       simp only [hst, EncOut.ofRes, s1bad h1]
 
